@@ -361,6 +361,9 @@ DEPENDS = {
     "C01": ["SerialFrame."],
     "C02": ["SerialFrame.", "ParseRecv.recv_handle", "ParseRecv._recv_cb"],
     "C13": ["ThreadCommon."],
+    "C12": ["CommHandler._nxslib_channels", "CommHandler.ch_", "CommHandler._channels_init", "CommHandler.channels_",
+            "CommHandler._get_ack", "NxscopeHandler._stream_thread", "NxscopeHandler.stream_sub", "NxscopeHandler.stream_unsub",
+            "Device.en_channels_update", "Device.div_channels_update", "Device.channel_get"],
     "C16": ["DummyDev.__init__", "DummyDev.start", "DummyDev.stop", "DeviceChannel.", "Device.reset", "Device.__init__",
             "ChannelFunc"],
     "C14": ["DummyDev.", "ParseRecv.", "DeviceChannel.data_get", "Device.channel_get"],
@@ -695,6 +698,97 @@ def emit_types(mods, c, status):
     return {"Gen_types.v": "\n".join(out) + "\n"}
 
 
+LOCK_NAMES = {("comm.py", "_channels_lock"): "channels", ("dev.py", "_channels_lock"): "devinfo",
+              ("nxscope.py", "_queue_lock"): "queue"}
+
+
+def lock_graph(mods):
+    """(outer, inner) pairs of locks that are ever held together, and the locks taken on the receive path.
+    Calls are resolved by receiver: self.m() -> same class; self.dev / self._dev / dev -> Device;
+    self._comm -> CommHandler; anything else (queues, channel objects, user callbacks) takes none of these locks.
+    Fail-closed: an unknown `with` target is an error."""
+    files = {}
+    for rel in ("comm.py", "nxscope.py", "dev.py"):
+        files[rel] = mods.get(rel) or Module(rel)
+    classes = {}
+    for rel, m in files.items():
+        for cls in [n for n in m.tree.body if isinstance(n, ast.ClassDef)]:
+            classes[cls.name] = (rel, {fn.name: fn for fn in cls.body if isinstance(fn, ast.FunctionDef)})
+
+    def lock_of(rel, item):
+        e = item.context_expr
+        if isinstance(e, ast.Attribute) and isinstance(e.value, ast.Name) and e.value.id == "self":
+            nm = LOCK_NAMES.get((rel, e.attr))
+            if nm is None:
+                raise ShapeError("%s: unknown lock in `with`: %s" % (rel, e.attr))
+            return nm
+        raise ShapeError("%s: `with` target not recognised: %s" % (rel, ast.dump(e)[:60]))
+
+    def target_class(cur_cls, recv):
+        if isinstance(recv, ast.Name) and recv.id == "self":
+            return cur_cls
+        if isinstance(recv, ast.Name) and recv.id == "dev":
+            return "Device"
+        if isinstance(recv, ast.Attribute) and isinstance(recv.value, ast.Name) and recv.value.id == "self":
+            if recv.attr in ("dev", "_dev"):
+                return "Device"
+            if recv.attr == "_comm":
+                return "CommHandler"
+        return None
+
+    def callees(cur_cls, node):
+        """(class, method) pairs referenced by calls / property reads inside node"""
+        out = []
+        for n in ast.walk(node):
+            if isinstance(n, ast.Attribute):
+                tc = target_class(cur_cls, n.value)
+                if tc and tc in classes and n.attr in classes[tc][1]:
+                    out.append((tc, n.attr))
+        return out
+
+    memo = {}
+
+    def acquires(cls, name, depth=0):
+        key = (cls, name)
+        if key in memo:
+            return memo[key]
+        memo[key] = set()
+        rel, fns = classes[cls]
+        fn = fns[name]
+        out = set()
+        for n in ast.walk(fn):
+            if isinstance(n, ast.With):
+                for it in n.items:
+                    out.add(lock_of(rel, it))
+        if depth < 8:
+            for tc, m in callees(cls, fn):
+                if (tc, m) != key:
+                    out |= acquires(tc, m, depth + 1)
+        memo[key] = out
+        return out
+
+    edges = set()
+    for cls, (rel, fns) in classes.items():
+        for name, fn in fns.items():
+            for w in [n for n in ast.walk(fn) if isinstance(n, ast.With)]:
+                outer = [lock_of(rel, it) for it in w.items]
+                inner = set()
+                for stmt in w.body:
+                    for n in ast.walk(stmt):
+                        if isinstance(n, ast.With):
+                            for it in n.items:
+                                inner.add(lock_of(rel, it))
+                    for tc, m in callees(cls, stmt):
+                        inner |= acquires(tc, m)
+                for o in outer:
+                    for i in inner:
+                        edges.add((o, i))
+    recv = set()
+    for nm in ("_recv_thread", "_read_frame", "_read_hdr"):
+        recv |= acquires("CommHandler", nm)
+    return sorted(edges), sorted(recv)
+
+
 def dummy_default_alloc(mods):
     """How DummyDev.__init__ obtains the default channel list: 'true' if every
     instance gets a fresh copy (copy.deepcopy(...) / a factory call), 'false' if
@@ -725,6 +819,10 @@ def emit_misc(mods, c, status):
     out = [HEADER % "src/nxslib/intf/iintf.py, dev.py, comm.py"]
     out.append(coq_const("align_pad_byte", c["align_pad_byte"]))
     out.append("Definition dummy_default_fresh : bool := %s." % dummy_default_alloc(mods))
+    edges, recv = lock_graph(mods)
+    out.append("Definition lock_edges : list (string * string) := [%s]." % "; ".join(
+        "(%s, %s)" % (coq_string(a), coq_string(b)) for a, b in edges))
+    out.append("Definition recv_path_locks : list string := [%s]." % "; ".join(coq_string(x) for x in recv))
     out.append(coq_const("chinfo_retries", c["chinfo_retries"]))
     out.append(coq_const("connect_timeout", c["connect_timeout"]))
     for nm in ("mask_dtype", "mask_critical", "mask_res", "chan_rw_a", "chan_rw_b"):
